@@ -12,7 +12,11 @@ CHECKS = {
         '(every filter kind x error shape x publisher behaviour, nil/empty/already-poisoned metadata, ...) through the real middleware inside a real Router (three handlers '
         'sharing ONE middleware value, router- or handler-level, 1..8 messages in flight with a forced rendezvous at the first collaborator call) and called directly; '
         'every per-message observation (poison publications with full metadata, chain result, trace order, settlement, the consumed object afterwards) is compared with the model '
-        'and judged by the acceptor.'),
+        'and judged by the acceptor. '
+        'Round proofs: a thread-level semantics of ONE middleware value serving any number of messages - after any schedule every message is where its solo run would be '
+        '(any interleaving = N independent runs; the shared-error-variable variant is refuted by a 2-message schedule); PoisonQueue(Retry(h)) composed with the C12 model - poisoned '
+        'exactly when all attempts failed and the filter accepts the LAST error, which is the reason - tied by 800 cases with the real Retry middleware; the no-filter path parks at '
+        'the add-only hook poison.default_filter.'),
   note=('Trusted: Coq kernel + vm_compute; err.Error() as an oracle; errors.Is / pkg/errors.Cause / multierror.Append as modelled on four error shapes; panics of nil-map writes and '
         'nil interface / nil func calls; defer + named results; the scripted collaborators, string interning (the four keys as literals), projection of returned errors to trees, '
         'attribution of collaborator calls by goroutine id; the message hook stamps that observe the Router\'s settle calls. Identity of the published message (the consumed object itself) is compared '
